@@ -371,6 +371,10 @@ def sig_of(cap):
     """what a permutation must not change: verdict, diagnostics, leaves (priority, kind, callback, pattern HIR), code"""
     if cap is None:
         return None
+    if cap.verdict != 'ACCEPT':
+        # a rejected definition has to be rejected in every order, with the same diagnostics; the text around the
+        # compile_error! invocations (an impl with whichever duplicate came last) is nobody's lexer
+        return (cap.verdict, tuple(sorted(cap.errs)))
     return (cap.verdict, tuple(sorted(cap.errs)), tuple(cap.leaves), tuple(l for l in cap.dump if l.startswith('HIR')), cap.code)
 
 
@@ -433,6 +437,7 @@ def check_c18(tier, seed, log=print):
                                           correspondence='T-D AttributeParser vs LogosModel.Attr'), no_input=True, key='attrtie|' + c['src'])
     for g, idxs in groups.items():
         logos_level = cases[idxs[0]]['family'] in ('c18-logos', 'c18-logos-pairs')
+        # groups marked exact permute items that cannot move a leaf: the generated code itself must not change
         sigf = lexer_sig if logos_level else sig_of
         base = sigf(caps[idxs[0]])
         if len(idxs) > 2:
